@@ -70,6 +70,7 @@ type FuncContract struct {
 	AssumedEnsures []*Clause      // postconditions callers may use but the body check does not establish (listed as assumptions)
 	Splits         []*SplitSpec   // case splits applied to every proof obligation of the function
 	RecvType       types.Type     // set on a resolved "sameas" contract: the implementation's receiver type
+	OnlyCallers    []string       // calledonlyby: the only functions (name substrings) that may call this one
 	ConstTexts     []string       // string constants that must occur verbatim in the function (configuration the assumed semantics rest on)
 	SameAs         string         // interface method contract = the contract of this implementation ("pkgpath.(*T).M"), assumed to be the dynamic callee
 	LazySpecs      bool           // at call sites, recursive spec functions in this contract are left folded (unfolded by the solver on demand)
@@ -235,7 +236,7 @@ func parseParams(s string) []SpecParam {
 	return out
 }
 
-var clauseKw = map[string]bool{"behavior": true, "ensuresassumed": true, "ensureslocal": true, "split": true, "definitional": true, "lazyspecs": true, "sameas": true, "consttext": true, "set": true, "choose": true, "sqltext": true, "except": true, "allowcalls": true, "nocalls": true, "ensureserror": true, "ensureszero": true, "requires": true, "ensures": true, "modifies": true, "loop": true, "inline": true,
+var clauseKw = map[string]bool{"behavior": true, "ensuresassumed": true, "ensureslocal": true, "split": true, "definitional": true, "lazyspecs": true, "sameas": true, "consttext": true, "calledonlyby": true, "set": true, "choose": true, "sqltext": true, "except": true, "allowcalls": true, "nocalls": true, "ensureserror": true, "ensureszero": true, "requires": true, "ensures": true, "modifies": true, "loop": true, "inline": true,
 	"trusted": true, "pure": true, "opaque": true, "nonnil": true, "props": true, "maypanic": true, "params": true,
 	"assert": true, "call": true}
 
@@ -682,6 +683,10 @@ func (cs *ContractSet) ParseFile(path, pkgPath string) error {
 		case "nocalls":
 			if cur != nil {
 				cur.NoCalls = true
+			}
+		case "calledonlyby":
+			if cur != nil {
+				cur.OnlyCallers = append(cur.OnlyCallers, strings.Fields(it.rest)...)
 			}
 		case "allowcalls":
 			if cur != nil {
